@@ -29,6 +29,41 @@ type ModInfo struct {
 	sites         map[*ssa.Function][]rootedSite
 	calls         map[*ssa.Function][]rootedCall
 	w             *World
+	// direct writes to slice elements, attributed to the struct field the slice was loaded from
+	// ("" = unknown origin): f -> Elems array -> origins
+	ElemsOrig map[*ssa.Function]map[string]map[string]bool
+	noteElems func(arr string, slice ssa.Value)
+}
+
+// sliceOrigin: the struct field array a slice value was loaded from ("" when unknown).
+func sliceOrigin(v ssa.Value, depth int) string {
+	if depth > 6 {
+		return ""
+	}
+	switch x := v.(type) {
+	case *ssa.UnOp:
+		if fa, ok := x.X.(*ssa.FieldAddr); ok {
+			pt := fa.X.Type().Underlying().(*types.Pointer).Elem()
+			return fieldArrName(pt, pt.Underlying().(*types.Struct), fa.Field)
+		}
+	case *ssa.Slice:
+		return sliceOrigin(x.X, depth+1)
+	case *ssa.Call:
+		if b, ok := x.Call.Value.(*ssa.Builtin); ok && b.Name() == "append" {
+			return sliceOrigin(x.Call.Args[0], depth+1)
+		}
+	case *ssa.Phi:
+		o := ""
+		for i, e := range x.Edges {
+			oe := sliceOrigin(e, depth+1)
+			if i > 0 && oe != o {
+				return ""
+			}
+			o = oe
+		}
+		return o
+	}
+	return ""
 }
 
 func sortOfType(t types.Type) string {
@@ -121,7 +156,7 @@ func pointeeArrays(el types.Type, out map[string]bool) {
 
 func (w *World) computeModInfo() *ModInfo {
 	mi := &ModInfo{Mutable: map[string]string{}, Writers: map[string]map[string]bool{}, Fields: map[string]bool{},
-		Direct: map[*ssa.Function]map[string]bool{}, Trans: map[*ssa.Function]map[string]bool{}, Callees: map[*ssa.Function]map[*ssa.Function]bool{}, w: w}
+		Direct: map[*ssa.Function]map[string]bool{}, Trans: map[*ssa.Function]map[string]bool{}, Callees: map[*ssa.Function]map[*ssa.Function]bool{}, w: w, ElemsOrig: map[*ssa.Function]map[string]map[string]bool{}}
 	markAll := func(t types.Type, why string) {
 		m := map[string]bool{}
 		structArrays(t, m, 0)
@@ -170,6 +205,15 @@ func (w *World) computeModInfo() *ModInfo {
 		callees := map[*ssa.Function]bool{}
 		mi.Direct[f] = direct
 		mi.Callees[f] = callees
+		mi.noteElems = func(arr string, slice ssa.Value) {
+			if mi.ElemsOrig[f] == nil {
+				mi.ElemsOrig[f] = map[string]map[string]bool{}
+			}
+			if mi.ElemsOrig[f][arr] == nil {
+				mi.ElemsOrig[f][arr] = map[string]bool{}
+			}
+			mi.ElemsOrig[f][arr][sliceOrigin(slice, 0)] = true
+		}
 		add := func(a string) {
 			direct[a] = true
 			if mi.Writers[a] == nil {
@@ -234,6 +278,7 @@ func (w *World) computeModInfo() *ModInfo {
 			}
 		}
 	}
+	mi.noteElems = nil
 	// declared trusted frames replace inference
 	declared := func(f *ssa.Function) (map[string]bool, bool) {
 		fc := w.CS.Funcs[funcKey(f)]
@@ -308,6 +353,9 @@ func (mi *ModInfo) storeEffects(x *ssa.Store, add func(string), markAll func(typ
 			return
 		}
 		add(arrElems(el))
+		if mi.noteElems != nil {
+			mi.noteElems(arrElems(el), a.X)
+		}
 	case *ssa.Global:
 		add(arrGlobal(a))
 	case *ssa.Alloc:
@@ -358,6 +406,9 @@ func (mi *ModInfo) callEffects(f *ssa.Function, ci ssa.CallInstruction, add func
 					}
 				} else {
 					add(arrElems(st.Elem()))
+					if mi.noteElems != nil {
+						mi.noteElems(arrElems(st.Elem()), cc.Args[0])
+					}
 				}
 			}
 		case "delete":
@@ -811,4 +862,31 @@ func (mi *ModInfo) computeGlobalWrites() map[*ssa.Function][]GlobalWrite {
 func isPtrType(t types.Type) bool {
 	_, ok := t.Underlying().(*types.Pointer)
 	return ok
+}
+
+// elemsOrigins: origins of all writes to the Elems array arr in f and everything it may call
+// (declared trusted frames cut the walk, as in Trans).
+func (mi *ModInfo) elemsOrigins(f *ssa.Function, arr string) map[string]string {
+	res := map[string]string{}
+	seen := map[*ssa.Function]bool{f: true}
+	work := []*ssa.Function{f}
+	for len(work) > 0 {
+		g := work[0]
+		work = work[1:]
+		if fc := mi.w.CS.Funcs[funcKey(g)]; fc != nil && fc.TrustedFrame {
+			continue
+		}
+		for o := range mi.ElemsOrig[g][arr] {
+			if _, ok := res[o]; !ok {
+				res[o] = funcKey(g)
+			}
+		}
+		for c := range mi.Callees[g] {
+			if !seen[c] {
+				seen[c] = true
+				work = append(work, c)
+			}
+		}
+	}
+	return res
 }
